@@ -5,7 +5,7 @@
 From Coq Require Import ZArith List Bool Lia.
 From Maj Require Import Base.Outcome Base.GoInt Base.GoTypes Isa.Spec Isa.Seq Isa.Refine.
 From Maj Require Import Gen.Latency Gen.RiscTables Gen.Opcodes Comp.Cache Comp.Rat Mvp.Mvp12 Mvp.Mvp3 Mvp.Mvp5 Mvp.Mvp60 Mvp.Mvp63 Mvp.Mvp63Proofs Mvp.Mvp70 Mvp.Mvp70Proofs.
-From Maj Require Import Msi.M70Inv Msi.M70Frame Msi.M70Proofs Msi.M70Proofs2.
+From Maj Require Import Msi.M70Inv Msi.M70Frame Msi.M70Proofs Msi.M70Proofs2 Msi.M70Proofs3 Msi.M70Proofs4 Msi.M70Proofs5 Msi.M70Proofs6.
 Import ListNotations.
 Open Scope Z_scope.
 
@@ -33,12 +33,71 @@ Print Assumptions C06_mvp70_run_states.
              Shared elsewhere);
    the read / write counters of every line are EXACTLY the numbers of cores inside a transaction whose `post`
    closure will release them (so Sem.RUnlock / Sem.Unlock never find a counter at 0), and clause 5.
-   Clauses 2 and 3 are not proved about the faithful model: see the header of Msi/M70Proofs2.v. *)
+   Clauses 2 and 3: C06_mvp70_shared_equals_memory, C06_mvp70_l1_iff_valid below. *)
 Theorem C06_mvp70_single_writer_partial : forall par ord app labels st s0 s,
   init7 par ord app st = Ok s0 -> reach7nf hooks70 app labels ord s0 s ->
   clause1_70 (st_msi s) /\ sem_count70 (st_msi s) (v_eus s) /\ clause5_70 (st_msi s).
 Proof. exact mvp70_swmr_partial. Qed.
 Print Assumptions C06_mvp70_single_writer_partial.
+
+(* Clause 3 on the flush-free prefix of every run, every program, number of cores and order function:
+   for every core n (its execute unit e) and every line address a (a multiple of 64),
+     - if the directory state of (n, a) is not Invalid, the L1 of core n holds the line (some line of its
+       cache covers a);
+     - if the L1 of core n holds the line and no TRANSFER of a is in progress in its controller (transfer7 e a:
+       the controller is inside a read / write transaction whose `post` closure will install the line,
+       setState(shared / modified), i.e. the coroutine is between its fill and its settle), the state is not
+       Invalid.
+   With it, about the snoop commands in flight (cmds_ok70): the kind of every command matches the state of its
+   target (evict <-> Shared, write-back <-> Modified), its target is not inside a transaction on that line, and
+   every closure of a snoop list has its command in the directory.
+   Proof: Msi/M70Proofs3.v (command invariant GI, stated over the semaphores) and Msi/M70Proofs4.v (shape of a
+   controller, the L1 through Get / PushLineWithEvictionWarning / EvictCacheLine / Write, the loops). *)
+Theorem C06_mvp70_l1_iff_valid : forall par ord app labels st s0 s,
+  init7 par ord app st = Ok s0 -> reach7nf hooks70 app labels ord s0 s ->
+  clause3_70 (st_msi s) (v_eus s) /\ cmds_ok70 (st_msi s) (v_eus s).
+Proof. exact mvp70_clause3. Qed.
+Print Assumptions C06_mvp70_l1_iff_valid.
+
+(* Clause 2 on the flush-free prefix of every run: a line that is Shared in core n (directory state of (n, a),
+   a a multiple of 64) is in the L1 of core n and the 64 bytes of that L1 line are the 64 bytes of main memory
+   at a (mem_line: what mmu.fetchCacheLine returns).  Proof: Msi/M70Proofs5.v - memory changes only in the
+   write-back closure of a core that holds the line Modified; the L1 data of a line changes only in coWriteToL1,
+   in the call that makes the line Modified; a Shared copy is created by a fill whose bytes were read from
+   memory after every Modified holder had written back, and nobody can become Modified while the read counter
+   of the line is held. *)
+Theorem C06_mvp70_shared_equals_memory : forall par ord app labels st s0 s,
+  init7 par ord app st = Ok s0 -> reach7nf hooks70 app labels ord s0 s ->
+  clause2_70 (st_mem s) (st_msi s) (v_eus s).
+Proof. exact mvp70_clause2. Qed.
+Print Assumptions C06_mvp70_shared_equals_memory.
+
+(* The five clauses of C06 in every state of the flush-free prefix of every run of MVP-7.0 (every program,
+   1..n cores, every order function). *)
+Theorem C06_mvp70_inv_reachable : forall par ord app labels st s0 s,
+  init7 par ord app st = Ok s0 -> reach7nf hooks70 app labels ord s0 s -> C06Inv70_st s.
+Proof. exact mvp70_inv_reachable. Qed.
+Print Assumptions C06_mvp70_inv_reachable.
+
+(* The boolean judge of the five clauses (evaluated by the system check at every cycle of the Go runs through
+   the snapshots) is sound for the Prop statement, for EVERY memory, directory and list of execute units. *)
+Theorem C06_mvp70_judge_sound : forall mem i eus, c06inv70_b mem i eus = true -> C06Inv70 mem i eus.
+Proof. exact c06inv70_b_sound. Qed.
+Print Assumptions C06_mvp70_judge_sound.
+
+Theorem C06_mvp70_full_judge_sound : forall mem i eus, c06full70_b mem i eus = true -> C06Inv70 mem i eus.
+Proof.
+  intros mem i eus H. apply c06inv70_b_sound. unfold c06full70_b in H.
+  do 7 (apply andb_true_iff in H as [H _]). exact H.
+Qed.
+Print Assumptions C06_mvp70_full_judge_sound.
+
+(* FINDING (about the judge only): the converse of C06_mvp70_judge_sound is false - the judge checks every entry
+   of msi.pendings, clause 5 speaks of the entry getSem finds; a directory with a duplicate key (unreachable:
+   sem_set replaces in place) satisfies the five clauses and fails the judge. *)
+Theorem C06_mvp70_judge_complete_refuted : exists mem i eus, C06Inv70 mem i eus /\ c06inv70_b mem i eus = false.
+Proof. exact c06inv70_b_complete_refuted. Qed.
+Print Assumptions C06_mvp70_judge_complete_refuted.
 
 (* a flush-free prefix is a prefix: clauses 4 and 5 hold there as well *)
 Theorem C06_mvp70_noflush_is_run : forall hk app labels ord s0 s,
@@ -57,4 +116,47 @@ Definition c06_prog : list instr := map instr_of
   [SLi 10 0; SLi 11 64; SLi 5 7; SSw 5 0 10; SLw 6 0 10; SSw 6 4 11; SLw 7 4 11; SSw 7 8 10; SLw 8 8 10; SLw 9 0 11; SSb 5 70 10].
 Example C06_mvp70_example :
   check70 judge_full true 3 ord_asc 20000 c06_prog no_labels (st7_of 256 [] [(3, -56)]) = Some (2195, true, None).
+Proof. vm_compute. reflexivity. Qed.
+
+(* The hypothesis reach7nf is not vacuous and the theorems apply to states in the middle of contention: the state
+   c06_prog reaches on 3 cores after 700 flush-free ticks is a reach7nf state (run7_nf_reach), some core holds
+   a line Modified there, some controller is inside a transaction - and the five clauses hold by
+   C06_mvp70_inv_reachable. *)
+Definition some_modified (s : st7) : bool := existsb (fun e => snd e =? stModified) (i_states (st_msi s)).
+Definition some_busy (s : st7) : bool := existsb (fun e => negb (cc_idle (h_cc e))) (v_eus s).
+Example C06_mvp70_nonvacuous : exists s0 s,
+  init7 3 ord_asc c06_prog (st7_of 256 [] [(3, -56)]) = Ok s0 /\ reach7nf hooks70 c06_prog no_labels ord_asc s0 s /\
+  some_modified s = true /\ some_busy s = true /\ C06Inv70_st s.
+Proof.
+  destruct (init7 3 ord_asc c06_prog (st7_of 256 [] [(3, -56)])) as [s0| |] eqn:E0; try (vm_compute in E0; discriminate).
+  destruct (run7_nf 700 hooks70 c06_prog no_labels ord_asc s0) as [s|] eqn:E1.
+  - exists s0, s. split; [reflexivity|].
+    assert (R : reach7nf hooks70 c06_prog no_labels ord_asc s0 s) by (eapply run7_nf_reach; [apply r7_init|exact E1]).
+    split; [exact R|].
+    assert (X : match init7 3 ord_asc c06_prog (st7_of 256 [] [(3, -56)]) with
+                | Ok s0 => match run7_nf 700 hooks70 c06_prog no_labels ord_asc s0 with Some s => some_modified s && some_busy s | None => false end
+                | _ => false end = true) by (vm_compute; reflexivity).
+    rewrite E0, E1 in X. apply andb_true_iff in X as [X1 X2]. split; [exact X1|]. split; [exact X2|].
+    eapply C06_mvp70_inv_reachable; [exact E0|exact R].
+  - exfalso.
+    assert (X : match init7 3 ord_asc c06_prog (st7_of 256 [] [(3, -56)]) with
+                | Ok s0 => match run7_nf 700 hooks70 c06_prog no_labels ord_asc s0 with Some s => true | None => false end
+                | _ => false end = true) by (vm_compute; reflexivity).
+    rewrite E0, E1 in X. discriminate.
+Qed.
+Print Assumptions C06_mvp70_nonvacuous.
+
+(* Evidence with EVICTIONS: 36 loads of 36 distinct lines on 2 cores (each L1 has 16 lines: every core evicts), then
+   two stores (Shared -> Modified upgrades) and a load; flush-free, the run ends after 6584 states; the full judge
+   is evaluated in the 12 states where an L1 holds 17 lines or a snoop list is busy and in every 400th state
+   (29 states judged), no failure.  (A run with Modified victims - write-back closures, 19 lines stored and loaded
+   twice on 2 cores - was judged in all its 9539 states with the full judge and the conjuncts of GI / Sh while
+   developing Msi/M70Proofs3.v: no failure; it takes 17 minutes and is not part of the build.) *)
+Definition ev_prog70 : list instr := map instr_of
+  ([SLi 10 0; SLi 5 9] ++ map (fun k => SLw 6 (64 * Z.of_nat k) 10) (seq 0 36) ++ [SSw 5 2240 10; SSw 5 2180 10; SLw 7 0 10]).
+Example C06_mvp70_example_evictions :
+  match init7 2 ord_asc ev_prog70 (st7_of 2368 [] [(3, -56)]) with
+  | Ok s => run7_ev 400 60000 ev_prog70 no_labels ord_asc s 0 0 0
+  | _ => None
+  end = Some (6584, 12, 29, true).
 Proof. vm_compute. reflexivity. Qed.
